@@ -15,9 +15,9 @@ from vf.symbuf import Fill, SymBuf, mk
 
 UP = "/srv/up"
 # kinds of the two symbolic entries
-U_ABSENT, U_FILE, U_DIR, U_L_OUTDIR, U_L_OUTFILE, U_L_INFILE, U_L_SIB, U_DANGLING = range(8)
-NK = pick(6, 8)            # quick tier: without the sibling-file link and the dangling link
-UT = {U_L_OUTDIR: "/srv/out", U_L_OUTFILE: "/srv/out/victim", U_L_INFILE: "/srv/up/exist.gmi", U_L_SIB: "/srv/up-x/sib",
+U_ABSENT, U_FILE, U_DIR, U_L_OUTDIR, U_L_OUTFILE, U_L_SIB, U_L_SIBDIR, U_L_INFILE, U_DANGLING = range(9)
+NK = pick(7, 9)            # quick tier: without the inside-file link and the dangling link
+UT = {U_L_OUTDIR: "/srv/out", U_L_OUTFILE: "/srv/out/victim", U_L_INFILE: "/srv/up/exist.gmi", U_L_SIB: "/srv/up-x/sib", U_L_SIBDIR: "/srv/up-x",
       U_DANGLING: "/srv/out/nothing"}
 
 
@@ -33,7 +33,7 @@ class UNode(SymNode):
     def target(self):
         if self._target is None:
             k = self.k
-            for kk in (U_L_OUTDIR, U_L_OUTFILE, U_L_INFILE, U_L_SIB, U_DANGLING):
+            for kk in (U_L_OUTDIR, U_L_OUTFILE, U_L_INFILE, U_L_SIB, U_L_SIBDIR, U_DANGLING):
                 if k == kk:
                     self._target = UT[kk]
                     break
@@ -229,12 +229,18 @@ def effect3_n1(k1: int, k2: int, s2: int, s3: int) -> bool:
     return V(_upload(k1, k2, 4, s2, s3, 3, 2, 1, 0, False, 0, False, True, 0, 0, 0))
 
 
-def effect3_dotdot(k1: int, k2: int, s2: int, s3: int) -> bool:
+DD2 = ["up-x", "up", "out", "..", "sub", ""]
+DD3 = ["sib", "new.gmi", "victim", "exist.gmi", "n1"]
+
+
+def effect3_dotdot(k1: int, k2: int, s2: int, s3: int, delete: bool) -> bool:
     """
-    pre: 0 <= k1 < NK and 0 <= k2 < NK and 0 <= s2 < NS3 and 0 <= s3 < NS3
+    pre: 0 <= k1 < NK and 0 <= k2 < NK and 0 <= s2 < len(DD2) and 0 <= s3 < len(DD3)
+    pre: FULL or k2 == 1
     post: _
     """
-    return V(_upload(k1, k2, 7, s2, s3, 3, 2, 1, 0, False, 0, False, True, 0, 0, 0))
+    # leaving the upload directory lexically: the prefix-sharing sibling, the directory itself, an unrelated directory
+    return V(_upload_path(k1, k2, "/../" + DD2[s2] + "/" + DD3[s3], 0 if delete else 2, 1, 0, False, 0, False, True, 0, 0, 0))
 
 
 FPATHS = [("exist.gmi",), ("new.gmi",), ("sub", "inner.gmi"), ("newdir", "deep.gmi"), ("n1",), ("sub",), ("n1", "x.gmi")]
@@ -334,7 +340,7 @@ OBLIGATIONS = [
        symbolic="kinds of 2 tree entries, 3 path segments (first fixed: n1; others over 5 quick / 14 thorough names), upload of 5 bytes",
        functions=FN, stubs=["ModelFS"]),
     Ob("effect3_dotdot", effect3_dotdot, quick=600, thorough=2400,
-       symbolic="kinds of 2 tree entries, 3 path segments (first fixed: dotdot; others over 5 quick / 14 thorough names), upload of 5 bytes",
+       symbolic="kinds of 2 tree entries, path /../<a>/<b> with a in {up-x (prefix-sharing sibling), up, out, .., sub, ''} and b in 5 names, upload or delete",
        functions=FN, stubs=["ModelFS"]),
     Ob("fault", fault, quick=600, thorough=2400,
        symbolic="kind of 1 tree entry, 7 target paths (existing, new, nested, new directory, symbolic entry, a directory), upload of 5 bytes "
